@@ -90,9 +90,9 @@ PROPS['C14'] = dict(
     technique='ghost lock-depth counter maintained by assumed pthread contracts; postcondition depth_on_return == depth_on_entry on every public function, all paths incl. refusal and allocation failure (CBMC malloc may fail)',
     text='Every public function of the covered lockable containers is verified, from every state of its harness and under nondeterministic allocation failure, to return with the ghost lock depth it was entered with (entry depth 0..2: the caller may already hold the recursive lock). ' + HOSTS,
     design_ref='DESIGN.md section 3 C14',
-    note='Path property: unbounded for the vector, closed structures for lists. pthread semantics assumed (trylock succeeds, recursive mutex); qlog not covered.',
+    note='Path property: unbounded for the vector, closed structures for the linked containers; qlog write/duplicate/flush/free/constructor with stdio/time as assumed contracts (writef only formats and calls write). pthread semantics assumed (trylock succeeds, recursive mutex).',
     trusted_base=COMMON_TRUST + [PTHREAD_TRUST],
-    unchecked=['qlog', 'containers whose harnesses are not built yet'],
+    unchecked=['qlog writef (vsnprintf)', 'string-key convenience wrappers (put/get/remove by C string, *str/*int variants)'],
 )
 PROPS['C15'] = dict(
     technique='nondeterministic allocator failure at every allocation site inside one symbolic run (CBMC malloc-may-fail); postcondition: failure reported => observable state unchanged and invariant holds; memory-leak obligations',
